@@ -26,13 +26,40 @@ Theorem C14_repeated_paths_irrelevant : forall ident tpat fpat ign usecompiled t
 Proof. exact found_all_same_set. Qed.
 Print Assumptions C14_repeated_paths_irrelevant.
 
-(* Only modules accepted by --module are handed to import. *)
+(* Search roots may carry a package (--package-path DIR PKG mounts DIR as PKG; plain search paths carry ''): the files found
+   are those of the plain paths, each once, however mounted and plain paths overlap or repeat. *)
+From ZT Require Import DiscoverPk.
+Theorem C14_mounts_found_once : forall ident tpat fpat ign usecompiled top roots,
+  map fst (found_all_pk ident tpat fpat ign usecompiled top roots) = found_all ident tpat fpat ign usecompiled top (map fst roots)
+  /\ NoDup (map fst (found_all_pk ident tpat fpat ign usecompiled top roots)).
+Proof. intros. split; [apply found_all_pk_paths | apply found_pk_once]. Qed.
+Print Assumptions C14_mounts_found_once.
+
+(* Only modules accepted by --module are handed to import: the name is the file's name relative to a search root that carries
+   the file's package (the longest such root whose name --module accepts), and --module accepts it. *)
 Theorem C14_import_only_accepted : forall ident tpat fpat ign usecompiled top search walk_roots name_roots mpats fp m,
-  In (fp, m) (imported ident tpat fpat ign usecompiled top search walk_roots name_roots mpats) ->
-  In fp (found_all ident tpat fpat ign usecompiled top walk_roots) /\
-  module_name usecompiled name_roots fp = Some m /\ accept search mpats m = true.
+  In (fp, m) (imported_pk ident tpat fpat ign usecompiled top search walk_roots name_roots mpats) ->
+  exists k r, In (fp, k) (found_all_pk ident tpat fpat ign usecompiled top walk_roots) /\ In r name_roots /\ snd r = k /\
+              name_under usecompiled r fp = Some m /\ accept search mpats m = true.
 Proof. exact imported_only_accepted. Qed.
 Print Assumptions C14_import_only_accepted.
+
+(* Exactly the matching modules are loaded: every found file has a name (the prefixes cover what is walked), every found file
+   with an accepted name is handed to import, and no file is handed over twice. *)
+Theorem C14_every_found_file_is_named : forall ident tpat fpat ign usecompiled top walk_roots name_roots p k,
+  (forall r, In r walk_roots -> In r name_roots) ->
+  In (p, k) (found_all_pk ident tpat fpat ign usecompiled top walk_roots) ->
+  exists r m, In r name_roots /\ snd r = k /\ name_under usecompiled r p = Some m /\ module_name_pk usecompiled name_roots p k <> None.
+Proof. exact every_found_file_is_named. Qed.
+Print Assumptions C14_every_found_file_is_named.
+
+Theorem C14_accepted_file_is_imported_once : forall ident tpat fpat ign usecompiled top search walk_roots name_roots mpats,
+  (forall p k r m, In (p, k) (found_all_pk ident tpat fpat ign usecompiled top walk_roots) -> In r name_roots -> snd r = k ->
+     name_under usecompiled r p = Some m -> accept search mpats m = true ->
+     exists m', In (p, m') (imported_pk ident tpat fpat ign usecompiled top search walk_roots name_roots mpats))
+  /\ NoDup (map fst (imported_pk ident tpat fpat ign usecompiled top search walk_roots name_roots mpats)).
+Proof. intros. split; [apply accepted_found_file_is_imported | apply imported_once]. Qed.
+Print Assumptions C14_accepted_file_is_imported_once.
 
 (* discovery (and hence the default execution order) does not depend on the order in which the file system
    enumerates directory entries: trees that differ only by permuting children, at any depth, are walked alike *)
